@@ -555,9 +555,16 @@ class CommandPipeline:
             line = RE_HIDE_ESCAPE.sub("", line)
             if not line:
                 continue
-            # tee it up!
-            lines.append(line)
-            yield line
+            # a lone CR inside the piece ends a line too (universal newlines,
+            # the same rule ``_decode_uninew`` applies for ``$()``)
+            line = line.replace("\r", "\n")
+            start = 0
+            while start < len(line):
+                end = line.find("\n", start) + 1 or len(line)
+                # tee it up!
+                lines.append(line[start:end])
+                yield line[start:end]
+                start = end
         tail = decoder.decode(b"", final=True)
         if tail:
             lines.append(tail)
